@@ -3,6 +3,7 @@ import itertools
 import json
 
 import gen
+import bigfam
 import graphfam
 from c12 import finish_traces
 
@@ -99,9 +100,13 @@ def run(ctx):
     events, bad = finish_traces(ctx, behs)
     ctx.sample({'history': behs[200]['calls'], 'outcomes': [e['out'] for e in events if e['trace'] == 200]})
     ctx.sample({'tlc_simulated_history': sim[0] if sim else None})
+    # large lassos (1050-1600 nodes; thorough up to 4000): size-dependent behaviour (recursion depth, thresholds)
+    bigfam.run_big(ctx, bigfam.cases(rnd, ['reach', 'back', 'reach'], 10 if q else 120, nrange=(1050, 1600) if q else (1050, 4000)))
 
 
 def replay(ctx, path):
+    if bigfam.maybe_replay(ctx, path):
+        return
     obj = json.load(open(path))
     events, bad = finish_traces(ctx, [obj['case']['behaviour']])
     ctx.log('replayed: ' + json.dumps([e['out'] for e in events])[:500])
